@@ -400,6 +400,15 @@ func runHistory(payload string) string {
 	if err != nil {
 		return "harness-error atlas"
 	}
+	// a struct type with an empty struct map: cloning any non-empty map/struct into it is rejected
+	// at the first KEY (between a key and its value on the marshalling side)
+	emptyT := reflect.StructOf([]reflect.StructField{{Name: "ZZQ9", Type: reflect.TypeOf(false)}})
+	{
+		adx := *ad
+		adx.entries = append(append([]*AD{}, ad.entries...), &AD{t: &TD{k: "st", n: 99, rt: emptyT}, kind: "smap",
+			flds: []fldD{{name: "\x00never", route: []int{0}, t: &TD{k: "b", rt: reflect.TypeOf(false)}}}})
+		ad = &adx
+	}
 	atl, err := ad.build()
 	if err != nil {
 		return "harness-error atlas build"
@@ -428,6 +437,38 @@ func runHistory(payload string) string {
 	var do refmt_DecodeOptions = cbor.DecodeOptions{}
 	if fmtc == "j" {
 		eo, do = json.EncodeOptions{}, json.DecodeOptions{}
+	}
+	// (0) the same Go types used through ANOTHER atlas first (serial names rotated within each struct map):
+	// instances hold their atlas by value, so nothing of this may leak into the calls below
+	{
+		adB := &atlasD{mode: (ad.mode + 1) % 3}
+		for _, e := range ad.entries {
+			eb := *e
+			if e.kind == "smap" {
+				var idx []int
+				for i, f := range e.flds {
+					if !f.ignore {
+						idx = append(idx, i)
+					}
+				}
+				eb.flds = append([]fldD{}, e.flds...)
+				for k, i := range idx {
+					eb.flds[i].name = e.flds[idx[(k+1)%len(idx)]].name
+				}
+			}
+			adB.entries = append(adB.entries, &eb)
+		}
+		if atlB, err := adB.build(); err == nil {
+			for _, it := range its {
+				safely(func() error {
+					bs, err := refmt.MarshalAtlased(eo, it.v.Interface(), atlB)
+					if err != nil {
+						return err
+					}
+					return refmt.UnmarshalAtlased(do, bs, reflect.New(it.t.rt).Interface(), atlB)
+				})
+			}
+		}
 	}
 	// (1) long-lived marshaller
 	var stream bytes.Buffer
@@ -495,8 +536,19 @@ func runHistory(payload string) string {
 	// (3) long-lived cloner, with failing calls in between (clone into a bool)
 	cl := refmt.NewCloner(atl)
 	for _, it := range its {
+		// failing calls in between: into a bool (fails on the first token), and into containers of
+		// bools / an empty struct (fail in the middle of the source's map, slice or struct)
 		var wrong bool
 		safely(func() error { return cl.Clone(it.v.Interface(), &wrong) })
+		var wrongM map[string]bool
+		safely(func() error { return cl.Clone(it.v.Interface(), &wrongM) })
+		var wrongS []bool
+		safely(func() error { return cl.Clone(it.v.Interface(), &wrongS) })
+		var wrongMM map[string]map[string]bool
+		safely(func() error { return cl.Clone(it.v.Interface(), &wrongMM) })
+		safely(func() error { return cl.Clone(it.v.Interface(), reflect.New(emptyT).Interface()) })
+		safely(func() error { return cl.Clone(it.v.Interface(), reflect.New(reflect.SliceOf(emptyT)).Interface()) })
+		safely(func() error { return cl.Clone(it.v.Interface(), reflect.New(reflect.MapOf(reflect.TypeOf(""), emptyT)).Interface()) })
 		dst := reflect.New(it.t.rt)
 		e, p := safely(func() error { return cl.Clone(it.v.Interface(), dst.Interface()) })
 		fdst := reflect.New(it.t.rt)
